@@ -154,6 +154,13 @@ S(id="E.wide.native", props=["C12", "C14"], spec="native/wide_enum.c", mode="N",
   what="grammars that make the per-grammar and per-set containers grow (n alternatives in one set, right-hand sides of n symbols, names of n characters): defined, parsed, redefined on the same "
        "object and parsed again without any memory error (ASan's realloc always moves), with the expected trees")
 
+S(id="E.recover.native", props=["C12"], spec="native/recover_enum.c", mode="N", link=["allocate.c", "hashtab.c", "objstack.c", "vlobject.c", "yaep.c"], harness="main", timeout=3000,
+  params={"quick": {"RLEN": 4}, "thorough": {"RLEN": 6}},
+  bound="every input of <= 4 (thorough 6) tokens over 5 terminals of an expression grammar with an explicit error rule, recovery_match 1..3, lookahead 0..2, one parse; all parses for inputs of <= 3 (thorough 5) tokens, each in a child process",
+  functions=["build_pl", "error_recovery", "make_parse (after a recovery)"],
+  what="inside error recovery, which no contract reaches: no memory error, and every syntax_error call gets 0 <= first ignored <= first recovered <= token count, an error token inside the input, "
+       "increasing error tokens and the attributes of the reported indices (these numbers index the token array in build_pl: F36)")
+
 # ---------------- C15 / C14 / C17: yaep_parse ----------------
 PARSE_REPL = ["verif_error_exit/err_c", "tok_init/tok_init_c", "read_toks/read_toks_c", "yaep_parse_init/parse_init_c", "build_pl/build_pl_c",
               "make_parse/make_parse_c", "yaep_parse_fin/parse_fin_c", "tok_fin/tok_fin_c"]
